@@ -205,6 +205,9 @@ pub fn case_literal(id: usize, rule: FillRule, band: f64, edges: &[(Point, Point
 
 struct Cx<'a> {
     w: &'a mut ShardWriter,
+    /// small cases for the whole-plane checker (lines + slabs)
+    wp: &'a mut ShardWriter,
+    plane_budget: usize,
     st: &'a mut Stats,
     idx: &'a mut std::fs::File,
     id: usize,
@@ -298,6 +301,11 @@ fn run_poly(cx: &mut Cx, spec: &PathSpec, k: usize, origin: &str, to_coq: bool) 
         if origin == "tangle" && degenerate_position(spec) {
             f.push(("class", jstr("K14")));
         }
+        // known finding K17 (budgeted): a vertex of one sub-path on an edge of another up to f32 rounding; the pinned
+        // sweep fails on about one such input in 10^5
+        if origin == "rounded_junction" {
+            f.push(("class", jstr("K17")));
+        }
         cx.st.fail(jobj(&f));
     }
     // area: sum of triangle areas = area of the filled region (computed from the signed areas is only
@@ -313,6 +321,11 @@ fn run_poly(cx: &mut Cx, spec: &PathSpec, k: usize, origin: &str, to_coq: bool) 
         let edges32 = outline_edges_f32(spec, 0.01);
         cx.w.push(case_literal(cx.id, rule, band, &edges32, &out));
         cx.st.inc("cases_for_verified_checker");
+        if cx.plane_budget > 0 && out.tris.len() <= 6 && edges32.len() <= 12 {
+            cx.plane_budget -= 1;
+            cx.wp.push(case_literal(cx.id, rule, band, &edges32, &out));
+            cx.st.inc("cases_for_whole_plane_checker");
+        }
         cx.id += 1;
     }
 }
@@ -325,7 +338,10 @@ pub fn main(args: &Args) -> std::io::Result<()> {
     let mut w = ShardWriter::new(&args.out, &format!("{}_cases", prefix), args.shards, HEADER, footer);
     w.disabled = args.direct_only();
     let mut idx = std::fs::File::create(args.out.join(format!("{}_index.txt", prefix)))?;
-    let mut cx = Cx { w: &mut w, st: &mut st, idx: &mut idx, id: 0, rng: Rng::new(args.seed ^ 0x01), overlap };
+    let mut wp = ShardWriter::new(&args.out, &format!("{}plane_cases", prefix), args.shards, HEADER_PLANE, if overlap { "plane_overlap_undecided" } else { "plane_undecided" });
+    wp.disabled = args.direct_only();
+    let plane_budget = if args.thorough() { 480 } else { 96 };
+    let mut cx = Cx { w: &mut w, wp: &mut wp, plane_budget, st: &mut st, idx: &mut idx, id: 0, rng: Rng::new(args.seed ^ 0x01), overlap };
     // exhaustive: every closed polygon with 3 or 4 vertices on a g x g lattice (all degeneracies of that size)
     let g: i64 = if args.thorough() { 4 } else { 3 };
     let n = g * g;
@@ -493,6 +509,7 @@ pub fn main(args: &Args) -> std::io::Result<()> {
     }
     drop(cx);
     w.finish()?;
+    wp.finish()?;
     st.write(&args.out.join(format!("{}_stats.json", prefix)))
 }
 
@@ -544,6 +561,8 @@ pub fn reference_outline(spec: &PathSpec, n: usize) -> (Vec<(Point, Point)>, f64
     (edges, dev)
 }
 
+pub const HEADER_PLANE: &str =
+    "From Coq Require Import QArith.\nFrom LV Require Import Base.Prelude Model.Bezier Model.Winding Checker.Region Checker.Slab Run.C01.\nOpen Scope Q_scope.";
 pub const HEADER_DEV: &str =
     "From Coq Require Import QArith.\nFrom LV Require Import Base.Prelude Model.Bezier Checker.Region Checker.CurveDev Run.C09.\nOpen Scope Q_scope.";
 
@@ -565,13 +584,13 @@ pub fn reference_curve_cases(spec: &PathSpec, n: usize, dev: f64, id0: usize) ->
                 Seg::Quad(c, p, _) => {
                     let q = QuadraticBezierSegment { from: cur, ctrl: *c, to: *p };
                     let pts = glist(std::iter::once(gp(cur)).chain((1..=n).map(|i| gp(if i == n { *p } else { q.sample(i as f32 / n as f32) }))));
-                    out.push(format!("(QD {} {} {} (mkQuad {} {} {}) {} {})", id0, tol2, tol2, gp(cur), gp(*c), gp(*p), ts, pts));
+                    out.push(format!("(QD {} {} {} {} (mkQuad {} {} {}) {} {})", id0, tol2, tol2, tol2, gp(cur), gp(*c), gp(*p), ts, pts));
                     cur = *p;
                 }
                 Seg::Cubic(c1, c2, p, _) => {
                     let q = CubicBezierSegment { from: cur, ctrl1: *c1, ctrl2: *c2, to: *p };
                     let pts = glist(std::iter::once(gp(cur)).chain((1..=n).map(|i| gp(if i == n { *p } else { q.sample(i as f32 / n as f32) }))));
-                    out.push(format!("(CD {} {} {} (mkCubic {} {} {} {}) {} {})", id0, tol2, tol2, gp(cur), gp(*c1), gp(*c2), gp(*p), ts, pts));
+                    out.push(format!("(CD {} {} {} {} (mkCubic {} {} {} {}) {} {})", id0, tol2, tol2, tol2, gp(cur), gp(*c1), gp(*c2), gp(*p), ts, pts));
                     cur = *p;
                 }
             }
